@@ -496,6 +496,8 @@ func (pe *PolicyEngine) insertAdminNetworkPolicy(anp *apisv1a.AdminNetworkPolicy
 	}
 	pe.adminNetpolsMap[anp.Name] = true
 	pe.sortedAdminNetpols = append(pe.sortedAdminNetpols, (*k8s.AdminNetworkPolicy)(anp))
+	// clear the cache on admin netpols changes
+	pe.cache.clear()
 	// keep the slice sorted by priority, so that the policy-engine may be queried after any insertion
 	return pe.sortAdminNetpolsByPriority()
 }
@@ -514,6 +516,8 @@ func (pe *PolicyEngine) insertBaselineAdminNetworkPolicy(banp *apisv1a.BaselineA
 		return errors.New(netpolerrors.BANPNameAssertion)
 	}
 	pe.baselineAdminNetpol = (*k8s.BaselineAdminNetworkPolicy)(banp)
+	// clear the cache on baseline admin netpol changes
+	pe.cache.clear()
 	return nil
 }
 
@@ -590,6 +594,8 @@ func (pe *PolicyEngine) deleteAdminNetworkPolicy(anp *apisv1a.AdminNetworkPolicy
 			break
 		}
 	}
+	// clear the cache on admin netpols changes
+	pe.cache.clear()
 	return nil
 }
 
@@ -597,6 +603,8 @@ func (pe *PolicyEngine) deleteBaselineAdminNetworkPolicy(banp *apisv1a.BaselineA
 	if pe.baselineAdminNetpol != nil && pe.baselineAdminNetpol.Name == banp.Name { // if this is the banp used in pe delete it
 		// @TBD : should keep this if? no other banps are in the resources (illegal)
 		pe.baselineAdminNetpol = nil
+		// clear the cache on baseline admin netpol changes
+		pe.cache.clear()
 	}
 	return nil
 }
